@@ -229,7 +229,11 @@ func (o *Obl) discharge(timeoutS int) {
 	var total time.Duration
 	var details []string
 	for _, sp := range solvers {
-		res, raw, d := runSolver(sp, q, timeoutS)
+		tmo := timeoutS
+		if o.Canary && tmo > 2 {
+			tmo = 2
+		}
+		res, raw, d := runSolver(sp, q, tmo)
 		total += d
 		switch res {
 		case "unsat":
@@ -276,7 +280,91 @@ func (o *Obl) discharge(timeoutS int) {
 	o.TimeMS = int(total / time.Millisecond)
 }
 
+// splitParts returns sub-obligations, one per top-level conjunct of the goal's consequent.
+func splitParts(o *Obl) []*Obl {
+	if o.Canary || o.ctx == nil {
+		return nil
+	}
+	goals := splitGoal(o.Goal, 0)
+	if len(goals) < 2 {
+		return nil
+	}
+	var out []*Obl
+	for i, g := range goals {
+		out = append(out, &Obl{Name: fmt.Sprintf("%s.%d", o.Name, i+1), Goal: g, Prefix: o.Prefix, ctx: o.ctx, Kind: o.Kind})
+	}
+	return out
+}
+
+// splitGoal turns (=> A (and B (=> C (and D E)))) into [(=> A B), (=> (and A C) D), (=> (and A C) E)].
+func splitGoal(g string, depth int) []string {
+	if depth > 6 || len(g) > 400000 {
+		return []string{g}
+	}
+	if strings.HasPrefix(g, "(=> ") {
+		parts := splitSexp(g[4 : len(g)-1])
+		if len(parts) == 2 {
+			sub := splitGoal(parts[1], depth+1)
+			if len(sub) == 1 && sub[0] == parts[1] {
+				return []string{g}
+			}
+			var out []string
+			for _, s := range sub {
+				out = append(out, sImp(parts[0], s))
+			}
+			return out
+		}
+	}
+	if strings.HasPrefix(g, "(and ") {
+		var out []string
+		for _, c := range splitSexp(g[5 : len(g)-1]) {
+			out = append(out, splitGoal(c, depth+1)...)
+		}
+		return out
+	}
+	return []string{g}
+}
+
 func dischargeAll(obls []*Obl, timeoutS, workers int) {
+	// conjunctive goals are discharged conjunct by conjunct (in parallel); the obligation is
+	// discharged iff every conjunct is
+	var units []*Obl
+	parts := map[*Obl][]*Obl{}
+	for _, o := range obls {
+		if ps := splitParts(o); ps != nil {
+			parts[o] = ps
+			units = append(units, ps...)
+		} else {
+			units = append(units, o)
+		}
+	}
+	dischargeUnits(units, timeoutS, workers)
+	for o, ps := range parts {
+		o.Status = "discharged"
+		solvers := map[string]bool{}
+		for _, p := range ps {
+			o.TimeMS += p.TimeMS
+			solvers[p.Solver] = true
+			if p.Status != "discharged" {
+				if o.Status == "discharged" || p.Status == "failed" {
+					o.Status = p.Status
+					o.Detail = "conjunct " + p.Name[len(o.Name)+1:] + ": " + p.Detail
+					o.failedPart = p
+				}
+			}
+		}
+		var sl []string
+		for s := range solvers {
+			if s != "" {
+				sl = append(sl, s)
+			}
+		}
+		sort.Strings(sl)
+		o.Solver = strings.Join(sl, "+")
+	}
+}
+
+func dischargeUnits(obls []*Obl, timeoutS, workers int) {
 	var wg sync.WaitGroup
 	ch := make(chan *Obl)
 	for w := 0; w < workers; w++ {
